@@ -643,3 +643,91 @@ func TestRegress(t *testing.T) {
 		}
 	}
 }
+
+// TestHedgedRetryStats (run by the C17 check): Retry(Hedge(fn)) where whole hedged rounds fail and are retried. Retries only
+// change between rounds, when nothing else of the execution runs, so every function entry of round k must see exactly
+// Retries() == k-1, and Attempts() within the bounds the concurrently starting hedges allow.
+func TestHedgedRetryStats(t *testing.T) {
+	const test = "TestHedgedRetryStats"
+	st := harness.NewStats(test)
+	defer st.Flush()
+	rapid.Check(t, func(t *rapid.T) {
+		type scen struct {
+			MaxHedges  int   `json:"max_hedges"`
+			DelayUs    int   `json:"delay_us"`
+			FailRounds int   `json:"fail_rounds"`
+			DurUs      []int `json:"dur_us"`
+			Async      bool  `json:"async"`
+		}
+		sc := scen{MaxHedges: rapid.IntRange(1, 3).Draw(t, "maxHedges"), DelayUs: rapid.SampledFrom([]int{0, 50, 300}).Draw(t, "delayUs"),
+			FailRounds: rapid.IntRange(1, 3).Draw(t, "failRounds"), Async: rapid.Bool().Draw(t, "async")}
+		for i := 0; i < 16; i++ {
+			sc.DurUs = append(sc.DurUs, rapid.SampledFrom([]int{0, 100, 500, 1500}).Draw(t, "durUs"))
+		}
+		var mu sync.Mutex
+		round := 0 // completed rounds, advanced by OnRetry (between rounds)
+		entries, hedgesSeen := 0, 0
+		var problems []string
+		hp := hedgepolicy.BuilderWithDelay[int](time.Duration(sc.DelayUs) * time.Microsecond).WithMaxHedges(sc.MaxHedges).CancelOnResult(-1).Build()
+		rp := retrypolicy.Builder[int]().WithMaxRetries(sc.FailRounds).HandleErrors(errN).OnRetry(func(e failsafe.ExecutionEvent[int]) {
+			mu.Lock()
+			round++
+			if e.Retries() != round {
+				problems = append(problems, fmt.Sprintf("OnRetry %d sees Retries()=%d", round, e.Retries()))
+			}
+			mu.Unlock()
+		}).Build()
+		fn := func(exec failsafe.Execution[int]) (int, error) {
+			h1 := exec.Hedges()
+			r, a := exec.Retries(), exec.Attempts()
+			h2 := exec.Hedges()
+			mu.Lock()
+			k := round
+			i := entries
+			entries++
+			if exec.IsHedge() {
+				hedgesSeen++
+			}
+			if r != k {
+				problems = append(problems, fmt.Sprintf("an attempt of round %d sees Retries()=%d (Attempts=%d Hedges=%d)", k+1, r, a, h2))
+			}
+			if a < 1+r+h1 || a > 1+r+h2+1 {
+				problems = append(problems, fmt.Sprintf("round %d: Attempts=%d with Retries=%d and Hedges in [%d,%d]", k+1, a, r, h1, h2))
+			}
+			mu.Unlock()
+			select {
+			case <-time.After(time.Duration(sc.DurUs[i%len(sc.DurUs)]) * time.Microsecond):
+			case <-exec.Canceled():
+			}
+			if k < sc.FailRounds {
+				return 0, errN
+			}
+			return 7, nil
+		}
+		var doneA, doneR, doneH int
+		ex := failsafe.NewExecutor[int](rp, hp).OnDone(func(e failsafe.ExecutionDoneEvent[int]) { doneA, doneR, doneH = e.Attempts(), e.Retries(), e.Hedges() })
+		var v int
+		var err error
+		if sc.Async {
+			v, err = ex.GetWithExecutionAsync(fn).Get()
+		} else {
+			v, err = ex.GetWithExecution(fn)
+		}
+		mu.Lock()
+		defer mu.Unlock()
+		if len(problems) > 0 {
+			harness.Violation(t, "C17", test, "hedged-retry-stats", sc, "%+v: %s", sc, problems[0])
+		}
+		if v != 7 || err != nil {
+			harness.Violation(t, "C17", test, "hedged-retry-result", sc, "%+v: returned (%d,%v) after %d failing rounds of at most %d", sc, v, err, sc.FailRounds, sc.FailRounds)
+		}
+		if doneR != sc.FailRounds || doneA != 1+doneR+doneH {
+			harness.Violation(t, "C17", test, "hedged-retry-stats", sc, "%+v: the done event reports Attempts=%d Retries=%d Hedges=%d after %d retried rounds", sc, doneA, doneR, doneH, sc.FailRounds)
+		}
+		b, _ := json.Marshal(sc)
+		st.Case(string(b), hedgesSeen > 0, fmt.Sprintf("hedges-started=%v", hedgesSeen > 0))
+		if hedgesSeen > 0 {
+			st.Sample(string(b), func() any { return sc })
+		}
+	})
+}
